@@ -418,14 +418,28 @@ theorem step_inv (s s' : State) (e : Event) (h : Inv s) (hs : step s e = some s'
         · cases hs
       · cases hs
     · cases hs
+  | writerBegin =>
+    simp only [step] at hs
+    split at hs
+    · rename_i w hwr
+      split at hs
+      · split at hs
+        · cases hs
+        · injection hs with hs; subst hs
+          refine inv_move s _ h ?_ ?_ ?_ ?_ ?_ h.hCapW h.hCapR
+          · rfl
+          · rfl
+          · intro w'; simp only [cnt, wrHeld, rdHeld, hwr]; omega
+          · intro w'; exact Nat.le_refl _
+          · intro w' hw'; simp at hw'
+      · cases hs
+    · cases hs
   | writerWrite =>
     simp only [step] at hs
     split at hs
     · rename_i w hwr
       split at hs
       · rename_i x hget
-        split at hs
-        · cases hs
         · injection hs with hs; subst hs
           have hp := h.hWork w x hget
           have hpos : 0 < cnt s w := by simp only [cnt, wrHeld, hwr, count_single, ↓reduceIte]; omega
@@ -764,7 +778,7 @@ theorem fstep_inv (s s' : State) (e : Event) (h : FInv s) (hs : step s e = some 
         · cases hs
       · cases hs
     · cases hs
-  | writerWrite =>
+  | writerBegin =>
     simp only [step] at hs
     split at hs
     · rename_i w hwr
@@ -772,14 +786,26 @@ theorem fstep_inv (s s' : State) (e : Event) (h : FInv s) (hs : step s e = some 
       · split at hs
         · cases hs
         · injection hs with hs; subst hs
-          have hl := h.lost (by rw [hwr]; simp)
           constructor
-          · intro hr; have := h.eq hr
-            simp only [rdHeld, wrPush, hwr, hl, List.append_nil] at this ⊢
-            rw [this]
-          · rcases h.pre with ⟨rest, hrest⟩
-            exact ⟨rest ++ [w], by simp only [hrest, List.append_assoc]⟩
-          · intro _; exact hl
+          · intro hr; have := h.eq hr; simp only [rdHeld, wrPush, hwr] at this ⊢; exact this
+          · exact h.pre
+          · intro _; exact h.lost (by rw [hwr]; simp)
+      · cases hs
+    · cases hs
+  | writerWrite =>
+    simp only [step] at hs
+    split at hs
+    · rename_i w hwr
+      split at hs
+      · injection hs with hs; subst hs
+        have hl := h.lost (by rw [hwr]; simp)
+        constructor
+        · intro hr; have := h.eq hr
+          simp only [rdHeld, wrPush, hwr, hl, List.append_nil] at this ⊢
+          rw [this]
+        · rcases h.pre with ⟨rest, hrest⟩
+          exact ⟨rest ++ [w], by simp only [hrest, List.append_assoc]⟩
+        · intro _; exact hl
       · cases hs
     · cases hs
   | writerWriteFail =>
